@@ -218,6 +218,28 @@ func (e *tenv) run(kind string) (bool, string) {
 			cancel()
 		}
 		return c.wait(), toutcome(c)
+	case "pingAsyncOK":
+		// an asynchronous ping that is answered; the function AsyncPing returned is never called - the Pong ends the exchange
+		pong := make(chan struct{}, 1)
+		if _, err := cc.AsyncPing(func() {
+			select {
+			case pong <- struct{}{}:
+			default:
+			}
+		}); err != nil {
+			return true, "err"
+		}
+		q, ok := e.waitOut(func(f conns.TFrame) bool { return f.Code == int(codes.Ping) })
+		if !ok {
+			return false, "norequest"
+		}
+		e.feed(codes.Pong, q.Token, nil, nil)
+		select {
+		case <-pong:
+			return true, "ok"
+		case <-time.After(conns.WD):
+			return false, "nopong"
+		}
 	case "oneWay":
 		c := e.async(func() (*pool.Message, error) {
 			req, err := cc.NewGetRequest(ctx, p)
